@@ -428,6 +428,35 @@ def run_case(key, shape, args, lazy_mode, res, replay_unit):
                     bad[lz] = ("raises", got)
                 elif got != exp:
                     bad[lz] = (kind_of(exp, got), got)
+            if not bad and shape == "LLeq" and isinstance(args[0], list):
+                # aliasing: both operands are the *same* not yet materialised lazy list (what `:` leaves:
+                # a duplicate is a view of the original); pairing must still be position by position
+                try:
+                    exp2 = expected(key, [args[0], args[0]])
+                    for how, prog in (("dup", ":" + key), ("same-object", None)):
+                        from lib import env as _env
+                        from lib.values import from_spec as _fs
+
+                        obj = _fs(lazify(args[0], "top"))
+                        if prog is None:
+                            r2 = _env.run_text(key, stack=[obj, obj])
+                        else:
+                            r2 = _env.run_text(prog, stack=[obj])
+                        bump("alias_runs")
+                        if r2.error is not None or len(r2.stack) != 1:
+                            got2 = "raise"
+                        else:
+                            try:
+                                got2 = _norm(r2.stack[-1])
+                            except Exception as e:  # noqa
+                                got2 = "raise"
+                        if got2 != exp2:
+                            bad["Z"] = ("aliased-" + how + ("-raises" if got2 == "raise" else "-differs"), got2)
+                            exp = exp2
+                            lazy_args = [{"aliased": lazify(args[0], "top")}]
+                            break
+                except Unstatable:
+                    pass
             if not bad:
                 bump("held")
                 bump("eager_equals_lazy")  # both equal the same expected value
